@@ -267,8 +267,15 @@ def app_and_cell():
         cell = {}
 
         def ep():
+            """Usage: 90% of {capacity} - %s %(x)s %d <zq9doc> & "quoted" see http://e.test/?a=1&b=2 {0} {#x}{/x}
+
+                indented second paragraph with a lone % at the end %"""
             return build(cell['spec'])
-        routes = [('/basic', ep, render_basic), ('/json', ep, render_json), ('/jsondev', ep, render_json_dev),
+
+        def ep_plain():
+            return build(cell['spec'])
+        # the HTML page of render_basic shows the endpoint's name and docstring: one route with a hostile docstring, one without any
+        routes = [('/basic', ep, render_basic), ('/basicplain', ep_plain, render_basic), ('/json', ep, render_json), ('/jsondev', ep, render_json_dev),
                   ('/stream', ep, JSONRender(streaming=True)), ('/streamdev', ep, JSONRender(streaming=True, dev_mode=True)),
                   ('/jsonp', ep, JSONPRender()), ('/jsonpdev', ep, JSONPRender(dev_mode=True))]
         _APP['app'] = Application(routes)
@@ -492,6 +499,12 @@ def body(case, ctx):
             s2.feed(r2.body.decode('utf8', 'replace'))
             ctx.mismatch('table-differs-on-repeat', '%s: rendering the same value again gives another page (%d bytes, %d tables; first %d bytes, %d tables)'
                          % (what, len(r2.body), s2.tags.count('table'), len(r.body), s.tags.count('table')), rc)
+            return
+        r3 = call(app, '/basicplain', query='&'.join(q), headers=hdrs)
+        ctx.requests += 1
+        if r3.exc is not None or r3.status != 200 or (r3.header('Content-Type') or '').split(';')[0].strip() != 'text/html' or b'<table' not in r3.body:
+            ctx.mismatch('table-not-html', '%s: the same value from an endpoint without a docstring: %s %r %r'
+                         % (what, r3.status, r3.exc, r3.header('Content-Type')), rc)
             return
         ctx.event('basic-html-table')
         nt(ctx, spec, rc, force=True)
